@@ -1,6 +1,7 @@
 package main
 
 import (
+	"os"
 	"fmt"
 	"go/types"
 	"math/big"
@@ -63,9 +64,13 @@ type RangeIter struct {
 // control-flow panics
 type pathEnd struct{ reason string }
 type goPanic struct {
-	val Value
-	msg string
+	val   Value
+	msg   string
+	stack string
 }
+
+// VERIF_PANIC_STACK=1: append the symbolic call stack to panic messages (diagnostics only; changes violation messages)
+var panicStackDiag = os.Getenv("VERIF_PANIC_STACK") != ""
 type inconclusive struct{ reason string }
 type fatalErr struct{ msg string }
 
